@@ -31,7 +31,9 @@ def graph_attributes_from_molfile_v3000(
 
 
 def _tokenize_lines(lines: list[str]) -> list[list[str]]:
-    lines = _concat_lines_with_dash(lines)
+    # The header block (three free-text lines and the counts line) is never
+    # continued, whatever its lines look like; only connection table lines are.
+    lines = lines[:4] + _concat_lines_with_dash(lines[4:])
     split_lines = [line.rstrip().split(" ") for line in lines]
 
     return [[value for value in line if value != ""] for line in split_lines]
